@@ -106,7 +106,9 @@ func (mv *MessageView) SnapshotRequest(req *http.Request) error {
 	mv.traileroffset = int64(buf.Len())
 
 	ct := req.Header.Get("Content-Type")
-	if mv.skipBody && !mv.matchContentType(ct) || req.Body == nil {
+	// http.NoBody is left in place: replacing it would make the request look as if it had a body
+	// of unknown length, and it would be forwarded with chunked framing.
+	if mv.skipBody && !mv.matchContentType(ct) || req.Body == nil || req.Body == http.NoBody {
 		mv.message = buf.Bytes()
 		return nil
 	}
@@ -173,7 +175,7 @@ func (mv *MessageView) SnapshotResponse(res *http.Response) error {
 	mv.traileroffset = int64(buf.Len())
 
 	ct := res.Header.Get("Content-Type")
-	if mv.skipBody && !mv.matchContentType(ct) || res.Body == nil {
+	if mv.skipBody && !mv.matchContentType(ct) || res.Body == nil || res.Body == http.NoBody {
 		mv.message = buf.Bytes()
 		return nil
 	}
